@@ -51,7 +51,7 @@ CLAIMS = {
  'C01': dict(cat='proof', ref='DESIGN 5 C01',
    text="Partial proof + differential execution. Proved in Lean for all inputs and oracles: a signature is emitted only after the four rejection checks of Algorithm 7 passed (so ||z|| < gamma1-beta, the verifier's own "
         "threshold expression, and weight(h) <= omega hold for every emitted signature), signer and verifier hash the same formatted message; UseHint(MakeHint(z, r), r) = HighBits(r + z) for every r and |z| <= gamma2, for the FIPS functions and for the crate's kernels (use_hint_recovers_high_bits); "
-        "HighBits(r + s) = HighBits(r) whenever |LowBits(r)| < gamma2 - b and |s| <= b; and (C09, C11) the three key provenances are the same structs, (C18) the pipelines compute ring products, (C02) verification is Algorithm 8, "
+        "HighBits(r + s) = HighBits(r) whenever |LowBits(r)| < gamma2 - b and |s| <= b; the per-coefficient core of completeness (signer_hint_coefficient: under the tests Algorithm 7 applies, UseHint(MakeHint(-ct0, w-cs2+ct0), w-cs2+ct0) = HighBits(w)); ||c*s|| <= tau*eta for every challenge sample_in_ball can return (negacyclic product norm bound); and (C09, C11) the three key provenances are the same structs, (C18) the pipelines compute ring products, (C02) verification is Algorithm 8, "
         "(C08) encodings round-trip. Not proved: the composition of these through Algorithm 7's rejection loop into w1' = w1; decided on every run by verify(sign(..)) = true on the crate over all modes, sets and 2 x 4 key-provenance pairs, plus model agreement on a sample.",
    note=TB + "completeness for every input additionally rests on C02, C03, C09, C11, C18 (each claimed separately).",
    tech="Lean 4 proof of rejection-loop exit conditions + round-trip execution over all (mode, set, sk provenance, pk provenance) combinations"),
